@@ -40,6 +40,10 @@ POP = [
     # type names that extend another stored type name (directory / file-name matching in the filesystem source)
     dict(type="malware-analysis", spec_version="2.1", id="malware-analysis--" + U + "a", created=T1, modified=T2, product="alpha", result="benign", labels=["a"]),
     dict(type="x-foo-bar", spec_version="2.1", id="x-foo-bar--" + U + "b", created=T1, modified=T1, name="beta"),
+    # a heterogeneous list: the element that carries the sub-property comes AFTER elements that do not
+    dict(type="attack-pattern", spec_version="2.1", id="attack-pattern--" + U + "c", created=T1, modified=T1, name="gamma",
+         external_references=[{"source_name": "x", "url": "u"}, {"source_name": "capec", "external_id": "CAPEC-3"}, {"source_name": "y", "description": "d"}],
+         kill_chain_phases=[{"kill_chain_name": "k1", "phase_name": "p1"}, {"kill_chain_name": "k2", "phase_name": "p2"}]),
 ]
 TS_PROPS = {"created", "modified", "valid_from"}
 
@@ -61,6 +65,7 @@ def filter_specs():
           ("created", "=", "2020-01-01T00:00:00Z"), ("created", "=", "2020-01-01T00:00:00.000Z"), ("modified", "<=", "2020-01-02T00:00:00.000Z"),
           ("confidence", "<", 50), ("confidence", ">=", 50), ("confidence", "=", 50), ("revoked", "=", True), ("revoked", "!=", True), ("is_family", "=", False),
           ("external_references.source_name", "=", "cve"), ("external_references.external_id", "!=", "CVE-1"),
+          ("external_references.external_id", "=", "CAPEC-3"), ("external_references.description", "contains", "d"), ("kill_chain_phases.phase_name", "=", "p2"),
           ("granular_markings.selectors", "in", ["name"]), ("granular_markings.selectors", "contains", "labels"),
           ("granular_markings.marking_ref", "=", RED), ("extensions.pdf-ext.version", "=", "1.7"), ("extensions.pdf-ext.is_optimized", "=", False),
           ("nonexistent", "=", "x"), ("nonexistent", "!=", "x")]
@@ -235,6 +240,8 @@ def culprit(w, store, specs):
 
 
 def run_case(case, part):
+    if case.get("kind") == "growing":
+        return run_growing(case, part)
     w = World.get()
     specs = [tuple(s) if not isinstance(s[2], list) else (s[0], s[1], s[2]) for s in case["filters"]]
     for store in ("mem", "fs"):
@@ -433,7 +440,59 @@ def run_case(case, part):
     case.pop("_answers", None)
 
 
+def run_growing(case, part):
+    """HISTORY on one long-lived store object: query, add objects (of types the store has not seen and of known ones), query again - every answer is exactly
+    what a scan of what the store holds at that moment gives"""
+    from stix2 import FileSystemStore, MemoryStore
+    specs = [tuple(s) for s in case["filters"]]
+    d = env.scratch_dir("c12g")
+    try:
+        for sname, mk in (("mem", lambda: MemoryStore(allow_custom=True)), ("fs", lambda: FileSystemStore(os.path.join(d, "s"), allow_custom=True))):
+            os.makedirs(os.path.join(d, "s"), exist_ok=True)
+            st = mk()
+            held = []
+            # three instalments: known types only come later in the third
+            parts = [POP[0:1] + POP[4:6], POP[2:4] + POP[6:9], POP[1:2] + POP[9:]]
+            for step, chunk in enumerate(parts):
+                for o in chunk:
+                    st.add(copy.deepcopy(o))
+                    held.append(o)
+                for qname, q in (("filters", [mk_filter(x) for x in specs]), ("no-filter", [])):
+                    part.evaluations += 1
+                    part.transitions += 1
+                    c = {"kind": "growing", "filters": case["filters"], "store": sname, "after_instalment": step, "query": qname}
+                    try:
+                        got = {key(o) for o in st.query(q)}
+                        stored = [(key(o), view(o)) for o in st.query([Filter_id_in([h["id"] for h in held])])]
+                        exp = {k for k, v in stored if qname == "no-filter" or all(ref(x, v) is True for x in specs)}
+                    except TypeError:
+                        part.outcome("growing:not-type-consistent")
+                        continue
+                    except Exception as e:
+                        part.violation("C12/query-raises/%s/growing-store" % type(e).__name__, "a query on a store that is being filled raises", c, "answers", "%s: %s" % (type(e).__name__, str(e)[:160]))
+                        continue
+                    unreg = all(i.startswith("x-foo") for i, _ in (got ^ exp))
+                    if got != exp and unreg and any(x[0] in TS_PROPS and isinstance(x[2], str) for x in specs):
+                        continue            # the listed string-timestamp-vs-dict-kept-object finding
+                    if got != exp or len(stored) != len(held):
+                        part.outcome("growing:DIFFERS")
+                        part.violation("C12/%s/growing-store/%s" % (sname, "missing" if exp - got else "extra" if got - exp else "id-route-misses-stored-objects"),
+                                       "a query on a long-lived store does not see exactly what the store holds now", c, sorted(exp, key=str), sorted(got, key=str))
+                    else:
+                        part.outcome("growing:same")
+            shutil.rmtree(os.path.join(d, "s"), ignore_errors=True)
+    finally:
+        shutil.rmtree(d, ignore_errors=True)
+
+
+def Filter_id_in(ids):
+    from stix2 import Filter
+    return Filter("id", "in", sorted(set(ids)))
+
+
 def replay(case, part):
+    if case.get("kind") == "growing":
+        return run_growing({"kind": "growing", "filters": case["filters"]}, part)
     run_case(copy.deepcopy(case), part)
 
 
@@ -457,9 +516,11 @@ def run(run):
             if n == 3:
                 rts = [["query"] * 3, ["attached"] * 3, ["composite"] * 3, ["query", "attached", "composite"], ["composite", "query", "attached"]]
             cases.append({"filters": [list(c) for c in combo], "routes": rts})
+    for f in F:
+        cases.append({"kind": "growing", "filters": [f]})
     run.mode = "DEV"
     run.rule = ("all filter sets of size <= %d over %d filters x routes (query argument / attached / composite / nested composite / every mixed assignment for pairs) x "
-                "{MemorySource, FileSystemSource} on a fixed population of %d stored versions; states = distinct (store, result set); non-trivial = proper non-empty subset"
+                "{MemorySource, FileSystemSource} on a fixed population of %d stored versions; every single filter on one long-lived store filled in three instalments; states = distinct (store, result set); non-trivial = proper non-empty subset"
                 % (3 if th else 2, len(F), len(POP)))
     run.bound = {"filters": len(F), "max_set_size": 3 if th else 2, "population": len(POP), "routes_single": ROUTES1}
     run.alphabets = {"filters": F}
